@@ -184,34 +184,32 @@ Theorem C13_mod_std_flush_fresh_float :
 Proof. intros t. exact (mstd_flush_fresh float F64num (fact t) fmact eq_refl). Qed.
 Print Assumptions C13_mod_std_flush_fresh_float.
 
-(* fast solver with modules.  Flush clears neuronSignals / neuronSignalsBeingProcessed from biasNeuronCount on.  The
-   premise says that no module reads a slot below biasNeuronCount that a connection or a module writes; it cannot be
-   dropped (C13_mod_example_bias_slot below: a module that writes a bias node). *)
+(* fast solver with modules, ANY connections, modules and indices: Flush clears neuronSignals from biasNeuronCount on
+   and the whole scratch array neuronSignalsBeingProcessed, which makes it a reset.  The only premise is
+   sensorNeuronCount <= totalNeuronCount (with biasNeuronCount > totalNeuronCount the real constructor panics; with
+   inputs beyond totalNeuronCount LoadSensors does).
+   Before fix commit 868ebc3 Flush cleared the scratch array from biasNeuronCount on only, and this theorem needed the
+   further premise "no module reads a slot below biasNeuronCount that a connection or a module writes": a module
+   writing a bias node left a value there that survived Flush (C13_mod_example_bias_slot is that network). *)
 Theorem C13_mod_fast_flush_fresh :
   forall (F : Type) (NF : num F) (act : Z -> F -> res F) (mact : Z -> list F -> res (list F)) (fx : fmnet F),
     (f_sensor (fx_net fx) <= f_total (fx_net fx))%nat ->
-    (forall m j, In m (fx_mods fx) -> In j (fmd_ins m) -> (j < f_bias (fx_net fx))%nat ->
-       (forall c, In c (f_conns (fx_net fx)) -> fl_tgt c <> j) /\ (forall m', In m' (fx_mods fx) -> ~ In j (fmd_outs m'))) ->
     forall (h ops : list (op F)),
       mfast_trace NF act mact fx (fst (fast_flush NF (fx_net fx) (mfast_run NF act mact fx (mfast_init NF fx) h))) ops =
       mfast_trace NF act mact fx (mfast_init NF fx) ops.
-Proof.
-  intros F NF act mact fx HS HF. exact (mfast_flush_fresh F NF act mact fx HS (proj2 (flush_ok_iff F fx HS) HF)).
-Qed.
+Proof. exact mfast_flush_fresh. Qed.
 Print Assumptions C13_mod_fast_flush_fresh.
 
-(* in particular for every fast solver that Network.FastNetworkSolver builds from a network with control nodes, none
-   of which has an outgoing link into a bias node *)
+(* in particular for every fast solver that Network.FastNetworkSolver builds from a network with control nodes *)
 Theorem C13_mod_fast_flush_fresh_built :
   forall (F : Type) (NF : num F) (act : Z -> F -> res F) (mact : Z -> list F -> res (list F)) (n : mnet F) (fx : fmnet F),
     fast_of_net_mod NF n = Ok fx ->
-    (forall c p, In c (m_ctrl n) -> In p (cn_out c) -> is_bias (role_at (m_net n) p) = false) ->
     forall (h ops : list (op F)),
       mfast_trace NF act mact fx (fst (fast_flush NF (fx_net fx) (mfast_run NF act mact fx (mfast_init NF fx) h))) ops =
       mfast_trace NF act mact fx (mfast_init NF fx) ops.
 Proof.
-  intros F NF act mact n fx H Hout.
-  exact (mfast_flush_fresh F NF act mact fx (fast_of_net_mod_sensor_le F NF n fx H) (fast_of_net_mod_flush_ok F NF n fx H Hout)).
+  intros F NF act mact n fx H.
+  exact (mfast_flush_fresh F NF act mact fx (fast_of_net_mod_sensor_le F NF n fx H)).
 Qed.
 Print Assumptions C13_mod_fast_flush_fresh_built.
 
@@ -249,7 +247,7 @@ Example C13_mod_example_std :
 Proof. vm_compute. repeat split; reflexivity. Qed.
 
 Example C13_mod_example_fast :
-  exists fx, fast_of_net_mod F64num exm_net = Ok fx /\ flush_ok float fx = true /\
+  exists fx, fast_of_net_mod F64num exm_net = Ok fx /\
     mod_static_of fx = [(21, [4%nat; 5%nat], [6%nat]); (22, [6%nat; 4%nat], [7%nat])] /\
     map snd (mfast_trace F64num (fact []) fmact fx (mfast_init F64num fx) exm_hist) = [[0%float]; [45%float]] /\
     list_eqb (list_eqb feqb_exact)
@@ -257,11 +255,12 @@ Example C13_mod_example_fast :
       (map snd (mfast_trace F64num (fact []) fmact fx (mfast_init F64num fx) exm_ops)) = false.
 Proof. eexists. split; [vm_compute; reflexivity|]. vm_compute. repeat split; reflexivity. Qed.
 
-(* the premise of C13_mod_fast_flush_fresh cannot be dropped.  Input 0, bias 1, relay 2, output 3 <- 2, hidden 4 <- 0;
-   modules MULTIPLY (bias 1) -> 2 and then MULTIPLY (4) -> bias 1.  The second module writes slot 0 of
-   neuronSignalsBeingProcessed (the bias neuron's), which Flush does not clear and the first module reads: after
-   Load [7]; Forward 1; Forward 1; Flush the sequence Load [7]; Forward 1; Forward 1 returns 0, 7 where a fresh solver
-   returns 0, 0.  The real fast solver does exactly this (harness/c13_mod.go, family bias-slot); the Network does not. *)
+(* the network that made the former premise of C13_mod_fast_flush_fresh necessary.  Input 0, bias 1, relay 2,
+   output 3 <- 2, hidden 4 <- 0; modules MULTIPLY (bias 1) -> 2 and then MULTIPLY (4) -> bias 1.  The second module
+   writes slot 0 of neuronSignalsBeingProcessed (the bias neuron's), which the first module reads.  With the former
+   Flush (scratch array cleared from biasNeuronCount on) the sequence Load [7]; Forward 1; Forward 1; Forward 1 returned
+   0, 7, 7 after Load [7]; Forward 1; Forward 1; Flush, where a fresh solver returns 0, 0, 7 (the real solver did exactly
+   that: harness/c13_mod.go, family bias-slot).  Now the flushed solver equals the fresh one, state included. *)
 Definition exm_bias_slot : mnet float :=
   mkMnet (mkNet [mkNode Input 17 []; mkNode Bias 17 []; mkNode Hidden 17 [];
                  mkNode Output 14 [mkLink 2%nat 1%float false]; mkNode Hidden 14 [mkLink 0%nat 1%float false]]
@@ -269,11 +268,17 @@ Definition exm_bias_slot : mnet float :=
          [mkCnode 21 [1%nat] [2%nat]; mkCnode 21 [4%nat] [1%nat]].
 
 Example C13_mod_example_bias_slot :
-  exists fx, fast_of_net_mod F64num exm_bias_slot = Ok fx /\ flush_ok float fx = false /\
+  exists fx, fast_of_net_mod F64num exm_bias_slot = Ok fx /\
+    mod_static_of fx = [(21, [0%nat], [3%nat]); (21, [4%nat], [0%nat])] /\
     let h := [OLoad [7%float]; OForward 1; OForward 1] in
-    map snd (mfast_trace F64num (fact []) fmact fx (fst (fast_flush F64num (fx_net fx) (mfast_run F64num (fact []) fmact fx (mfast_init F64num fx) h))) h)
-      = [[0%float]; [0%float]; [7%float]] /\
-    map snd (mfast_trace F64num (fact []) fmact fx (mfast_init F64num fx) h) = [[0%float]; [0%float]; [0%float]].
+    let ops := [OLoad [7%float]; OForward 1; OForward 1; OForward 1] in
+    let flushed := fst (fast_flush F64num (fx_net fx) (mfast_run F64num (fact []) fmact fx (mfast_init F64num fx) h)) in
+    (* the module did write the bias slot before the Flush ... *)
+    nth 0 (fs_bp (mfast_run F64num (fact []) fmact fx (mfast_init F64num fx) h)) 0%float = 7%float /\
+    (* ... and Flush clears it *)
+    obs_eqb (fast_obs flushed) (fast_obs (mfast_init F64num fx)) = true /\
+    map snd (mfast_trace F64num (fact []) fmact fx flushed ops) = [[0%float]; [0%float]; [0%float]; [7%float]] /\
+    map snd (mfast_trace F64num (fact []) fmact fx (mfast_init F64num fx) ops) = [[0%float]; [0%float]; [0%float]; [7%float]].
 Proof. eexists. split; [vm_compute; reflexivity|]. vm_compute. repeat split; reflexivity. Qed.
 
 (* the modular Network's own entry points, Activate() = ActivateSteps(20) and ActivateSteps(k), among the operations
